@@ -15,7 +15,7 @@ RULE = (
     "Hypothesis-generated scenarios with finite A in 1..4 and P in 0..4, backlogs of 0..3*(A+P+2) ackable messages; "
     ">=50% of cases come from a saturation family (burst arrivals of >= A+P+2 messages, durations >= 1 s; in a third of "
     "them preceded by 1-3 messages whose ack callback raises, i.e. whose processing ends with an escaping exception), the rest "
-    "from free arrival grids, durations 0-3 s, a few malformed/unknown messages, optional stop. Oracle at every "
+    "from free arrival grids, durations 0-3 s, a few malformed/unknown messages, optional stop; a 'relisten' family in which the broker subscription breaks (listen() fails with the error) while slow tasks run and the same receiver listens again with a backlog ready. Oracle at every "
     "trace index: (#well-formed messages yielded by the broker) - (#of those whose last observable event has "
     "happened) <= A+P+1. Tightness is measured (cases reaching exactly A+P+1 / A+P). "
     "Non-trivial: the maximum reached >= A+P (bound approached) with backlog >= A+P+2."
@@ -42,6 +42,15 @@ def scenario(big: bool = False) -> Any:
                 t0 = cm.r9(t0 + 0.6)
             msgs = pre + [{"kind": "async", "at": t0, "dur": durs[k % len(durs)], "out": "ret", "ack": "sync", "timeout": None}
                           for k in range(n)] + msgs[:2]
+        elif fam == "relisten":
+            # the broker connection breaks (listen() fails) while slow tasks are running; the SAME receiver listens again while
+            # they are still running and a backlog is ready
+            durs = d.pop("burst_durs")
+            d.pop("burst_at")
+            k = A + P + 2 + extra
+            first = A + (extra % (P + 2))       # how many messages the first subscription hands over before it breaks
+            msgs = [{"kind": "async", "at": 0.0, "dur": 4.0 + durs[j % len(durs)], "out": "ret", "ack": "sync", "timeout": None} for j in range(first + k)]
+            d["stream_fault"], d["relisten"], d["has_stop"] = first, True, False
         else:
             d.pop("burst_durs")
             d.pop("burst_at")
@@ -61,7 +70,7 @@ def scenario(big: bool = False) -> Any:
                      outs=("ret", "ret", "ret", "ValueError", "NoResult"), acks=("sync", "async", "future"))
     return st.fixed_dictionaries({
         "A": st.integers(1, 7 if big else 4), "P": st.integers(0, 7 if big else 4),
-        "family": st.sampled_from(["burst", "burst", "faulty_burst", "free"]),
+        "family": st.sampled_from(["burst", "burst", "faulty_burst", "free", "relisten"]),
         "faults": st.lists(st.sampled_from(["sync_fail", "async_fail"]), min_size=1, max_size=3),
         "extra": st.integers(0, 6),
         "burst_durs": st.lists(st.sampled_from([1.0, 1.0, 2.0, 3.0, 0.35]), min_size=1, max_size=4),
@@ -113,7 +122,7 @@ def run_case(sc: Dict[str, Any]) -> Outcome:
     ngood = sum(1 for sp in specs if wh.is_good(sp))
     out.nontrivial = bool(mu >= A + P and ngood >= bound + 1)
     out.classes = [f"A={A},P={P}"] + [c for c, f in (("reached_bound", mu == bound), ("reached_bound_minus_1", mu == bound - 1),
-                                                     ("backlog>=bound+1", ngood >= bound + 1)) if f]
+                                                     ("backlog>=bound+1", ngood >= bound + 1), ("listens_again_while_tasks_run", bool(sc.get("relisten")))) if f]
     out.counters = {"cases_reaching_A+P+1": int(mu == bound)}
     return out
 
